@@ -72,6 +72,67 @@ PROPS = {
     },
 }
 
+# ---------------------------------------------------------------- C03
+def c03_classify(rq, impl):
+    return impl.split(" ", 1)[0]
+
+
+def c03_nontrivial(rq, impl):
+    # a run that executed at least one instruction or was refused by the loader
+    if impl.startswith("load"):
+        return True
+    try:
+        tail = impl.rsplit("|", 1)[1].split()
+        return int(tail[0]) > 0
+    except Exception:
+        return True
+
+
+def c03_compare(rq, impl, model):
+    out = cmp_default(rq, impl, model)
+    # direct predicate on the implementation: number of out-of-bounds fetches must be 0
+    try:
+        if "|" in impl and not impl.startswith("load"):
+            oob = int(impl.rsplit(" ", 1)[1])
+            if oob != 0:
+                out.append({"kind": "impl-vs-spec", "request": rq, "impl": impl, "model": model,
+                            "spec": "no instruction fetch outside [orig, 0xFE00)"})
+    except Exception:
+        pass
+    return out
+
+
+PROPS["C03"] = {
+    "theorems": [
+        "Lace.C03.load_spec",
+        "Lace.C03.run_eq_ref",
+        "Lace.C03.fetch_in_bounds",
+        "Lace.C03.run_panic_only_rti",
+        "Lace.C02.execute_eq_isa",
+    ],
+    "compare": c03_compare,
+    "classify": c03_classify,
+    "nontrivial": c03_nontrivial,
+    "group": lambda d: d["impl"].split(" ", 1)[0],
+    "rule": ("structured programs that terminate by construction (counted loops, nested JSR/RET and CALL/RETS "
+             "subroutines, loads/stores/indirection, traps with input, self-modifying stores; endings: HALT, "
+             "running off the end, jumps to xFFFF / below the origin / to xFE00 and above, unknown trap, RTI) "
+             "and arbitrary word images (origins incl. images ending exactly at / one above the top of memory, "
+             "empty file), each under a step budget enforced by the run-loop tick hook; observables: outcome "
+             "class and exit status, final registers/PC/CC, every memory word against the loaded image, stdout, "
+             "input consumed, number and hash of the fetch addresses, out-of-bounds fetch count. "
+             "Non-trivial: executed at least one instruction or was refused by the loader."),
+    "trusted": [
+        "Lean re-implementations of Rust integer formatting ({:04x}, {:03b}, {} of i16)",
+        "REG trap output is modelled in --minimal mode only (generated programs use REG only with --minimal)",
+        "stderr messages (exception text, LineTracker newlines) are not modelled",
+    ],
+    "assumptions": [
+        "GETC/IN: non-ASCII byte gives xFFFD; end of input is an emulator error (exit status 1)",
+        "in --minimal mode a lone ESC written by OUT/PUTS/PUTSP/IN is dropped",
+    ],
+}
+
 PROPS["C02"]["theorems"] = [
     "Lace.C02.execute_eq_isa",
     "Lace.C02.exec_frame",
